@@ -44,6 +44,17 @@ def run(ctx):
             cases.append((desc, gen_history(rng, desc, n, 0.08)))
         execlib.check_histories(ctx, rep, cases, 'history', classify=classify)
         done += len(cases)
+    # contexts in which the caller leaves tables out: ModbusSlaveContext supplies a default block for each — they must be
+    # four separate tables like any others
+    cases = []
+    for _ in range(ctx.scale(4, 40)):
+        omit = rng.sample(['d', 'c', 'i', 'h'], rng.choice([2, 3, 4]))
+        blocks = [{'kind': 'default'} if t in omit else {'kind': 'seq', 'address': rng.choice([0, 1, 5]), 'values': [0] * rng.choice([4, 10, 30])}
+                  for t in ('d', 'c', 'i', 'h')]
+        desc = {'blocks': blocks, 'd': 0, 'c': 1, 'i': 2, 'h': 3, 'zero': rng.random() < 0.5, 'omit': omit}
+        cases.append((desc, gen_history(rng, desc, rng.choice([3, 8, 15]), 0.05)))
+    if ctx.time_left() > 20:
+        execlib.check_histories(ctx, rep, cases, 'omitted-tables', classify=classify)
     return rep
 
 
